@@ -217,6 +217,8 @@ func c14Data() []c14Binding {
 		}
 	}
 	add(ref.Str(strings.Repeat("abcde", 1000)))
+	add(ref.Str(strings.Repeat("abcde", 14000))) // one line of 70 kB in the saved file
+	add(ref.Str(strings.Repeat("xy", 600000)))   // 1.2 MB
 	add(ref.Str("\u00e9\u2211 \u00a0"))
 	// containers of sizes 0..10, keys of every type, nested
 	keyOf := func(i int) ref.Value {
@@ -392,6 +394,7 @@ func runC14(c *core.Ctx) {
 	// pairs and triples of a representative subset (name ordering, mixed kinds)
 	if ok {
 		rep := []c14Binding{data[1], data[6], data[10], data[21], data[58], data[len(data)-8], data[len(data)-3]}
+		rep = append(rep, c14Binding{name: "alias", def: "alias = named", fn: true}, c14Binding{name: "alias2", def: "alias2 = lam", fn: true})
 		rep = append(rep, c14Binding{name: "UP", def: "UP = 3", val: func() *ref.Value { v := ref.Int(3); return &v }()},
 			c14Binding{name: "named", def: "func named(x) { x + 1 }", fn: true}, c14Binding{name: "lam", def: "lam = x => x * 2", fn: true})
 		for i := range rep {
